@@ -287,6 +287,12 @@ fn generate(seed: u64, case: u64, o: &Opts) -> Scenario {
                     Decision::StallAt(Phase::AfterHeaders, 503),
                     Decision::StallAt(Phase::InBody, 200),
                     Decision::StallAt(Phase::InBody, 503),
+                    // a complete 2xx head, then the connection is closed before / inside the announced body:
+                    // an acknowledgement (rule 8: never sent again), although it costs the connection
+                    Decision::AckThenClose { chunked: false, in_body: false },
+                    Decision::AckThenClose { chunked: true, in_body: true },
+                    Decision::AckThenClose { chunked: true, in_body: false },
+                    Decision::AckThenClose { chunked: false, in_body: true },
                 ]
             };
             let forced = menu[(case / 3) as usize % menu.len()];
@@ -726,6 +732,9 @@ fn run(r: &mut Report, sc: &Scenario) {
             r.observe("distinct-requests-in-split-batches", sets.len() as u64);
         }
     }
+    for rec in records.iter().filter(|r| r.decision.is_ack_then_close()) {
+        r.observe(&format!("acknowledged-then-closed:{}", rec.decision.name()), 1);
+    }
     for rec in records.iter().filter(|r| r.decision.is_fault()) {
         r.observe(&format!("fault-hit:{}", rec.decision.class()), 1);
         if rec.wire == Wire::Grpc {
@@ -947,6 +956,19 @@ fn run(r: &mut Report, sc: &Scenario) {
         }
     }
 
+    // ---- a 2xx head, then the connection closed gracefully: an acknowledgement, never to be sent again ----
+    // Rule 8 below judges it per scenario when the emitter's own success count matches. An emitter that
+    // only counts a success after the whole response body escapes that gate, so the run as a whole is judged
+    // too (in `main`): a deterministic regression sends again after EVERY such answer, starvation does not.
+    for first in records.iter().filter(|rec| rec.decision.is_ack_then_close() && rec.responded.is_some() && rec.wire == Wire::Http1) {
+        let Some(set) = vidsets.get(&first.idx) else { continue };
+        r.observe(&format!("ack-then-close:hits:{}", tname), 1);
+        if let Some(again) = records.iter().find(|later| later.endpoint == first.endpoint && later.seq > first.seq && vidsets.get(&later.idx).map(|l| !l.is_disjoint(set)).unwrap_or(false)) {
+            r.observe(&format!("ack-then-close:sent-again:{}", tname), 1);
+            r.set(&format!("ack_then_close_witness_{}", tname), case_json(json!({"answered_with_2xx_then_closed": first.brief(), "sent_again_in": again.brief()})));
+        }
+    }
+
     // ---- rule 8: a request that was acknowledged is not sent again ----
     // Duplicates between an unacknowledged attempt and its acknowledged retry are fine (at-least-once).
     // What must not happen is that events of a request the collector acknowledged show up in a later request.
@@ -973,8 +995,13 @@ fn run(r: &mut Report, sc: &Scenario) {
                         let between = on_ep[i + 1..].iter().take_while(|x| x.idx != again.idx).filter(|x| !x.acked()).last();
                         let after = between.map(|b| b.decision.class()).unwrap_or("none");
                         let again_set = &vidsets[&again.idx];
+                        let sig = if first.decision.is_ack_then_close() {
+                            format!("C12:acknowledged-request-resent:2xx-head-then-close:{}", tname)
+                        } else {
+                            format!("C12:acknowledged-request-resent:{}:after={}", tname, after)
+                        };
                         r.violation(
-                            &format!("C12:acknowledged-request-resent:{}:after={}", tname, after),
+                            &sig,
                             &format!(
                                 "request #{} on {} ({} events) was acknowledged ({}), yet {} of its events are in the later request #{} ({}){}",
                                 first.seq,
@@ -1233,6 +1260,27 @@ fn run_budget(r: &mut Report, seed: u64, case: u64, thorough: bool) {
     drop(col);
 }
 
+/// Run-level judgement of "2xx head, then a graceful close" (see `run`): sent again after every single one.
+fn judge_ack_then_close(r: &mut Report, min_hits: u64) {
+    for t in [Transport::HttpJson, Transport::HttpProto] {
+        let hits = r.observed.get(&format!("ack-then-close:hits:{}", t.name())).copied().unwrap_or(0);
+        let again = r.observed.get(&format!("ack-then-close:sent-again:{}", t.name())).copied().unwrap_or(0);
+        if hits >= min_hits && again == hits {
+            let witness = r.extra.get(&format!("ack_then_close_witness_{}", t.name())).cloned().unwrap_or(json!(null));
+            r.violation(
+                &format!("C12:acknowledged-request-resent:2xx-head-then-close:{}", t.name()),
+                &format!(
+                    "every one of the {} requests of this run that were answered with a complete 200 head (announcing a body) followed by a graceful close had its events sent again in a later request",
+                    hits
+                ),
+                witness,
+            );
+        } else if again > 0 {
+            r.observe("ack-then-close:sent-again-in-some-scenarios:observed-but-unjudged", again);
+        }
+    }
+}
+
 /// `par_cases` hands out blocks of 16 cases; these scenarios spend their time waiting (back-off, request
 /// timeouts), so one scenario per block balances far better.
 fn spread(r: &mut Report, args: &Args, n: u64, case: impl Fn(u64, &mut Report) + Sync) {
@@ -1279,6 +1327,7 @@ fn main() {
             run(&mut r, &sc);
             r.nontrivial(&("replay-run", i));
         }
+        judge_ack_then_close(&mut r, 3);
         std::process::exit(r.finish());
     }
 
@@ -1288,6 +1337,7 @@ fn main() {
         let sc = generate(seed, i, &opts);
         run(r, &sc);
     });
+    judge_ack_then_close(&mut r, 4);
     r.set("main_section_wall_s", json!(r.elapsed_s()));
     // retry-budget sequences (3 transports x 3 layouts x 3 signals for the failing batch, every failure
     // kind for the batch that follows)
